@@ -23,12 +23,35 @@ import (
 // which io.Reader allows (testing/iotest.DataErrReader) and some transports do.
 var inDataEOF bool
 
+// inKind selects the CONCRETE type of reader a decoder is handed: "" = the harness' own wrapper (an io.Reader and
+// nothing else), "buffer" = a *bytes.Buffer - what the library itself decodes from everywhere (message payloads:
+// bytes.NewBuffer(msg.Payload) in proxies and stubs), "reader" = a *bytes.Reader.  A decoder may take a short cut
+// for a concrete type; what it decodes must not depend on it.
+var inKind string
+
 type inReader struct {
 	r       *bytes.Reader
+	b       *bytes.Buffer
 	dataEOF bool
 }
 
-func newIn(in []byte) *inReader { return &inReader{r: bytes.NewReader(in), dataEOF: inDataEOF} }
+func newIn(in []byte) *inReader {
+	if inKind == "buffer" {
+		return &inReader{b: bytes.NewBuffer(append(make([]byte, 0, len(in)), in...))}
+	}
+	return &inReader{r: bytes.NewReader(in), dataEOF: inDataEOF}
+}
+
+// src is what the decoder gets
+func (x *inReader) src() io.Reader {
+	switch {
+	case x.b != nil:
+		return x.b
+	case inKind == "reader":
+		return x.r
+	}
+	return x
+}
 
 func (x *inReader) Read(p []byte) (int, error) {
 	n, err := x.r.Read(p)
@@ -39,7 +62,12 @@ func (x *inReader) Read(p []byte) (int, error) {
 }
 
 // Len is the number of bytes not read yet.
-func (x *inReader) Len() int { return x.r.Len() }
+func (x *inReader) Len() int {
+	if x.b != nil {
+		return x.b.Len()
+	}
+	return x.r.Len()
+}
 
 // decodeFn decodes one datum from the input and reports the decoded thing,
 // the number of bytes left unread and the decoder's error.
@@ -52,7 +80,7 @@ type namedDecoder struct {
 
 func decValue(in []byte) (interface{}, int, error) {
 	r := newIn(in)
-	v, err := value.NewValue(r)
+	v, err := value.NewValue(r.src())
 	return v, r.Len(), err
 }
 
@@ -64,7 +92,7 @@ func decSigReader(sig string) (decodeFn, error) {
 	rd := t.Reader()
 	return func(in []byte) (interface{}, int, error) {
 		r := newIn(in)
-		b, err := rd.Read(r)
+		b, err := rd.Read(r.src())
 		return b, r.Len(), err
 	}, nil
 }
@@ -73,7 +101,7 @@ func decReflect(gt reflect.Type) decodeFn {
 	return func(in []byte) (interface{}, int, error) {
 		r := newIn(in)
 		p := reflect.New(gt)
-		err := encoding.NewDecoder(encoding.DefaultCap(), r).Decode(p.Interface())
+		err := encoding.NewDecoder(encoding.DefaultCap(), r.src()).Decode(p.Interface())
 		return p.Elem(), r.Len(), err
 	}
 }
@@ -85,29 +113,29 @@ func decBasic(kind string) decodeFn {
 		var err error
 		switch kind {
 		case "c":
-			v, err = basic.ReadInt8(r)
+			v, err = basic.ReadInt8(r.src())
 		case "C":
-			v, err = basic.ReadUint8(r)
+			v, err = basic.ReadUint8(r.src())
 		case "w":
-			v, err = basic.ReadInt16(r)
+			v, err = basic.ReadInt16(r.src())
 		case "W":
-			v, err = basic.ReadUint16(r)
+			v, err = basic.ReadUint16(r.src())
 		case "i":
-			v, err = basic.ReadInt32(r)
+			v, err = basic.ReadInt32(r.src())
 		case "I":
-			v, err = basic.ReadUint32(r)
+			v, err = basic.ReadUint32(r.src())
 		case "l":
-			v, err = basic.ReadInt64(r)
+			v, err = basic.ReadInt64(r.src())
 		case "L":
-			v, err = basic.ReadUint64(r)
+			v, err = basic.ReadUint64(r.src())
 		case "f":
-			v, err = basic.ReadFloat32(r)
+			v, err = basic.ReadFloat32(r.src())
 		case "d":
-			v, err = basic.ReadFloat64(r)
+			v, err = basic.ReadFloat64(r.src())
 		case "b":
-			v, err = basic.ReadBool(r)
+			v, err = basic.ReadBool(r.src())
 		case "s":
-			v, err = basic.ReadString(r)
+			v, err = basic.ReadString(r.src())
 		default:
 			err = fmt.Errorf("no basic reader for %s", kind)
 		}
@@ -155,32 +183,32 @@ func isBasicKind(k string) bool {
 
 func decMetaObject(in []byte) (interface{}, int, error) {
 	r := newIn(in)
-	v, err := object.ReadMetaObject(r)
+	v, err := object.ReadMetaObject(r.src())
 	return v, r.Len(), err
 }
 
 func decObjRef(in []byte) (interface{}, int, error) {
 	r := newIn(in)
-	v, err := object.ReadObjectReference(r)
+	v, err := object.ReadObjectReference(r.src())
 	return v, r.Len(), err
 }
 
 func decServiceInfo(in []byte) (interface{}, int, error) {
 	r := newIn(in)
-	v, err := directory.ReadServiceInfo(r)
+	v, err := directory.ReadServiceInfo(r.src())
 	return v, r.Len(), err
 }
 
 func decCapMap(in []byte) (interface{}, int, error) {
 	r := newIn(in)
-	v, err := bus.ReadCapabilityMap(r)
+	v, err := bus.ReadCapabilityMap(r.src())
 	return v, r.Len(), err
 }
 
 func decMessage(in []byte) (interface{}, int, error) {
 	r := newIn(in)
 	var m net.Message
-	err := m.Read(r)
+	err := m.Read(r.src())
 	return m, r.Len(), err
 }
 
